@@ -294,15 +294,14 @@ func oaReasons(err error) []string {
 	return sortedKeys(set)
 }
 
-
 // ---------------------------------------------------------------------------------------------
 // schemas shared between operations
 
 // c14Shared records, per design, the operations whose request (or response) body schema is a
 // $ref that another operation with different designed body constraints also uses. goa names
 // one schema per structural hash; when two bodies with the same attribute names and types but
-// different validations or defaults share a hash, one of them is documented with the other's
-// constraints. The sharing itself is reported once per method (static finding); value-level
+// different validations share a hash, one of them is documented with the other's constraints
+// (differing defaults do not matter for acceptance and are not counted). The sharing itself is reported once per method (static finding); value-level
 // comparison on that side is skipped for the methods involved because its verdicts would be
 // attributed to the wrong keyword (the isolated one-method-per-design corpora carry the
 // keyword-level comparison).
@@ -313,42 +312,53 @@ type c14Shared struct {
 var c14SharedCache = map[string]*c14Shared{}
 var c14SharedMu sync.Mutex
 
-func bodyCanon(sp *spec.Spec, l *Layout, withDefaults bool) string {
+// effCanon renders the effective constraints of a type occurrence: aliases resolved, the
+// validations of every level gathered (so an inline uint with Minimum 2 and an alias of uint
+// carrying Minimum 2 are the same), recursively.
+func effCanon(sp *spec.Spec, t *spec.Type, depth int) string {
+	if t == nil || depth > 6 {
+		return "-"
+	}
+	e := sp.Eff(t)
+	var vs []string
+	for _, v := range e.Vs {
+		b, _ := json.Marshal(v)
+		vs = append(vs, string(b))
+	}
+	sort.Strings(vs)
+	out := e.K + strings.Join(vs, "&")
+	switch e.K {
+	case spec.KArray:
+		out += "[" + effCanon(sp, e.Elem, depth+1) + "]"
+	case spec.KMap:
+		out += "{" + effCanon(sp, e.Key, depth+1) + ":" + effCanon(sp, e.Elem, depth+1) + "}"
+	case spec.KObject:
+		var parts []string
+		for _, a := range e.Attrs {
+			req := "optional"
+			if spec.IsRequired(e.Required, a.Name) && !a.HasDefault {
+				req = "required"
+			}
+			parts = append(parts, a.Name+":"+req+":"+effCanon(sp, a.T, depth+1))
+		}
+		out += "(" + strings.Join(parts, ",") + ")"
+	}
+	return out
+}
+
+// bodyCanon renders the designed constraints of the body places of a layout (what decides
+// acceptance: types, validations, requiredness; defaults do not).
+func bodyCanon(sp *spec.Spec, l *Layout) string {
 	var parts []string
 	for _, p := range l.Places {
 		if p.Loc != spec.LocBody {
 			continue
 		}
-		b, _ := json.Marshal(p.T)
-		// named types are compared by their definition too
-		var defs []string
-		var walk func(t *spec.Type, depth int)
-		walk = func(t *spec.Type, depth int) {
-			if t == nil || depth > 4 {
-				return
-			}
-			if t.K == spec.KUser {
-				if td := sp.TypeDefByName(t.Ref); td != nil {
-					db, _ := json.Marshal(td)
-					defs = append(defs, string(db))
-				}
-			}
-			walk(t.Elem, depth+1)
-			walk(t.Key, depth+1)
-			for _, a := range t.Attrs {
-				walk(a.T, depth+1)
-			}
-		}
-		walk(p.T, 0)
-		d := ""
-		if withDefaults && p.A != nil && p.A.HasDefault {
-			d = fmt.Sprintf(" default=%v", p.A.Default)
-		}
 		req := p.Req
-		if !withDefaults && req == "default" {
+		if req == "default" {
 			req = "optional"
 		}
-		parts = append(parts, fmt.Sprintf("%s:%s:%s%s%v", p.Attr, string(b), req, d, defs))
+		parts = append(parts, p.Attr+":"+req+":"+effCanon(sp, p.T, 0))
 	}
 	return strings.Join(parts, ";")
 }
@@ -370,7 +380,7 @@ func sharedSchemas(s *Svc) *c14Shared {
 	for _, o := range docOps(d.gen3, false) {
 		ops[routeKey(o.Verb, o.Path)] = o
 	}
-	type member struct{ key, canon, canonNoDef string }
+	type member struct{ key, canon string }
 	reqGroups, respGroups := map[string][]member{}, map[string][]member{}
 	refOf := func(content any) string {
 		c := asMap(asMap(content)["application/json"])
@@ -395,7 +405,7 @@ func sharedSchemas(s *Svc) *c14Shared {
 			if m.Payload != nil {
 				if ref := refOf(asMap(o.Op["requestBody"])["content"]); ref != "" {
 					l := RequestLayout(s.Spec, svc, m)
-					reqGroups[ref] = append(reqGroups[ref], member{key, bodyCanon(s.Spec, l, true), bodyCanon(s.Spec, l, false)})
+					reqGroups[ref] = append(reqGroups[ref], member{key, bodyCanon(s.Spec, l)})
 				}
 			}
 			if m.Result != nil {
@@ -403,7 +413,7 @@ func sharedSchemas(s *Svc) *c14Shared {
 					rs := rs
 					if ref := refOf(asMap(asMap(o.Op["responses"])[fmt.Sprint(rs.Status)])["content"]); ref != "" {
 						l := ResponseLayout(s.Spec, m, &rs)
-						respGroups[ref] = append(respGroups[ref], member{key, bodyCanon(s.Spec, l, true), bodyCanon(s.Spec, l, false)})
+						respGroups[ref] = append(respGroups[ref], member{key, bodyCanon(s.Spec, l)})
 					}
 				}
 			}
@@ -411,21 +421,16 @@ func sharedSchemas(s *Svc) *c14Shared {
 	}
 	mark := func(groups map[string][]member, into map[string]string) {
 		for ref, ms := range groups {
-			diffV, diffD := false, false
+			diffV := false
 			for _, m := range ms[1:] {
-				if m.canonNoDef != ms[0].canonNoDef {
+				if m.canon != ms[0].canon {
 					diffV = true
-				} else if m.canon != ms[0].canon {
-					diffD = true
 				}
 			}
-			if !diffV && !diffD {
+			if !diffV {
 				continue
 			}
-			what := "defaults"
-			if diffV {
-				what = "validations"
-			}
+			what := "validations"
 			var names []string
 			for _, m := range ms {
 				names = append(names, m.key)
@@ -451,6 +456,15 @@ func c14Feat(s *Svc, m *spec.Method, p *Place) string {
 		return fmt.Sprintf("valid=%s pos=%s loc=%s req=%s type=%s", f["valid"], f["pos"], loc, req, tc)
 	}
 	return fmt.Sprintf("valid=none loc=%s req=%s type=%s", loc, req, tc)
+}
+
+// c14Value is the value-class part of a request-side signature: in the validation families the
+// keyword under test identifies the class of the failure, in the type families the value does.
+func c14Value(m *spec.Method, pv any) string {
+	if m.Feat["valid"] != "" {
+		return ""
+	}
+	return " value=" + valueClass(pv)
 }
 
 // c14FeatResp is the feature part of a response-side signature (the value class and the
@@ -702,13 +716,13 @@ func c14Request(s *Svc, m *spec.Method, l *Layout, o *c14Op, v any, r *MethodRes
 		if report {
 			r.outcome("doc-stricter")
 		}
-		fail(fmt.Sprintf("C14 request doc-stricter %s value=%s why=%s", c14Feat(s, m, p), valueClass(pv), strings.Join(reasons, "+")),
+		fail(fmt.Sprintf("C14 request doc-stricter %s%s why=%s", c14Feat(s, m, p), c14Value(m, pv), strings.Join(reasons, "+")),
 			fmt.Sprintf("the server accepted %s %s (payload %s reached user code) but the request does not conform to the documented operation: %s", call.ServerReq.Method, call.ServerReq.RequestURI, spec.Canon(sentN), detail))
 	default:
 		if report {
 			r.outcome("doc-laxer")
 		}
-		fail(fmt.Sprintf("C14 request doc-laxer %s value=%s why=%s", c14Feat(s, m, p), valueClass(pv), errorName(call)),
+		fail(fmt.Sprintf("C14 request doc-laxer %s%s why=%s", c14Feat(s, m, p), c14Value(m, pv), errorName(call)),
 			fmt.Sprintf("the request %s %s (payload %s, body %s) conforms to the documented operation but the server rejected it with %d %s", call.ServerReq.Method, call.ServerReq.RequestURI, spec.Canon(sentN), truncate(string(call.ReqBody), 160), call.Rec.Code, truncate(call.Rec.Body.String(), 200)))
 	}
 	return sigs
